@@ -74,12 +74,21 @@ class HopEnv(object):
     self.configured = None
     self.witnessed = False
 
-  def client(self, proto, mpm, pause_period=0):
+  def client(self, proto, mpm, pause_period=0, ratio_reset=False):
     s = self.wm.settings
+    # USE_RATIO_RESET: a destination that receives much less than the relay took in is "slow"; its connection is
+    # reset (disconnect() from inside sendQueued) - what is being sent at that moment must still arrive
+    s['USE_RATIO_RESET'] = bool(ratio_reset)
+    s['MIN_RESET_STAT_FLOW'] = 1
+    s['MIN_RESET_RATIO'] = 0.9
+    s['MIN_RESET_INTERVAL'] = 0
+    import carbon.instrumentation as _inst
+    _inst.prior_stats.clear()
+    if ratio_reset:
+      _inst.prior_stats['metricsReceived'] = 1000
     s['MAX_DATAPOINTS_PER_MESSAGE'] = mpm
     s['MAX_QUEUE_SIZE'] = 100000
     s['USE_FLOW_CONTROL'] = False
-    s['USE_RATIO_RESET'] = False
     s['DYNAMIC_ROUTER'] = False
     s['DESTINATION_POOL_REPLICAS'] = False
     s['TCP_KEEPALIVE'] = False
@@ -104,11 +113,32 @@ class HopEnv(object):
     router = FakeRouter()
     router.addDestination(dest)
     f = cls(dest, router)
+    f.clock = task.Clock()            # ReconnectingClientFactory's retry timer
+    f.jitter = 0
+    self.conn = relaysys.FakeConnector('127.0.0.1', 2004, f, None)
+    self.conn.state = 'connected'
     p = f.buildProtocol(IPv4Address('TCP', '127.0.0.1', 2004))
     tr = BackpressureTransport()
     tr.period = pause_period
     p.makeConnection(tr)
     return f, p, tr
+
+  def reconnect(self, f, p, pause_period):
+    """the closing connection is gone (everything written to it was flushed first, as Twisted does); the factory
+    retries and a new connection is made"""
+    from twisted.internet.error import ConnectionDone
+    from twisted.python.failure import Failure
+    reason = Failure(ConnectionDone())
+    self.conn.state = 'disconnected'
+    p.connectionLost(reason)
+    f.clientConnectionLost(self.conn, reason)
+    f.clock.advance(1000)
+    self.conn.state = 'connected'
+    p2 = f.buildProtocol(IPv4Address('TCP', '127.0.0.1', 2004))
+    tr2 = BackpressureTransport()
+    tr2.period = pause_period
+    p2.makeConnection(tr2)
+    return p2, tr2
 
 
 def gen_dp(rng):
@@ -158,7 +188,10 @@ def one_queue(ctx, he, rng, proto, mpm, n):
   if proto == 'line' and not he.witnessed:
     dps[0] = (dps[0][0], dps[0][1], 39095.38037296945)      # witness of the listed finding F17 (every run)
     he.witnessed = True
-  f, p, tr = he.client(proto, mpm, pause_period=rng.choice([0, 0, 1, 2, 3, 5]))
+  pp = rng.choice([0, 0, 1, 2, 3, 5])
+  rr = rng.random() < 0.25
+  f, p, tr = he.client(proto, mpm, pause_period=pp, ratio_reset=rr)
+  transports = [tr]
   # datapoints arrive in bursts; the send timer fires in between
   i = 0
   while i < n:
@@ -168,13 +201,19 @@ def one_queue(ctx, he, rng, proto, mpm, n):
     i += k
     for _ in range(rng.randint(0, 3)):
       he.reactor.clock.advance(1)
+      if tr.disconnecting:
+        p, tr = he.reconnect(f, p, pp)
+        transports.append(tr)
       if getattr(p, 'paused', False) and rng.random() < 0.6:
         p.resumeProducing()          # the transport's buffer drained
   for _ in range(3 * n + 5):
     he.reactor.clock.advance(1)
+    if tr.disconnecting:
+      p, tr = he.reconnect(f, p, pp)
+      transports.append(tr)
     if getattr(p, 'paused', False):
       p.resumeProducing()
-  raw = tr.value()
+  raw = b''.join(t.value() for t in transports)
   # independent decoder: batch structure of the bytes
   frames, batches = [], []
   ids = list(range(1, n + 1))
